@@ -73,7 +73,17 @@ ASSUMPTIONS = [
     'dcontext= and **settings.todict() is interpreting its translated body with dcontext bound by name (no Settings field '
     'is named like a parameter of the adapters: checked by the translator); print / render_text / render_csv / '
     'numberify_results are opaque callables; the theorem is stated in the shape of Shell.render_format, not yet through a '
-    'World instance; BQLShell.do_run / shlex.split is not tied by translation (correspondence only)',
+    'World instance',
+    'translator tie of `.run` (C19_source_do_run + C19_run_plan_is_do_run, group shell3 -> Gen/SrcShell3.v, the WHOLE of '
+    'BQLShell.do_run): trusted are the translator (py2mini + src_api + rules S5/S6 of src_shell2.py + S7 of src_shell3.py: '
+    'print() / print(x) / self.error(x) / self.execute(text, default_close_date=d) as statements append events to ONE log), '
+    'PyMini and Model/PrimsShell3.v: self.queries is the list of its items (name, Query record with query_string and date), '
+    'sorted() is Shell.sort_q, str.rstrip / str.join / dict.get / dict.items with their library meaning, shlex.split is '
+    'Shell.shlex_split (ValueError otherwise); that self.execute parses with the default CLOSE date and dispatches is the '
+    'other ties (C19_source_run_default_close, C19_source_on_select) plus correspondence; `.reload` (C19_source_do_reload, same '
+    'group, rule S8): context.errors.clear() / context.options.clear() / context.attach(..) / _extract_queries(..) are events of '
+    'the log and self.context is read as the connection AFTER them (mutation of the connection object is outside PyMini); '
+    'print_errors / print_statistics are opaque callables',
 ]
 
 WORK = os.path.join(core.BUILD, 'c19')
@@ -332,6 +342,7 @@ def generate():
     from . import gen_src
     out.update(gen_src.generate('shell'))
     out.update(gen_src.generate('shell2'))      # bld-misc: BQLShell.on_Select and the render adapters behind FORMATS
+    out.update(gen_src.generate('shell3'))      # bld-shell3: the whole of BQLShell.do_run
     return out
 
 
